@@ -288,3 +288,82 @@ def run_cmd(cmd, cwd=None, env=None, timeout=600):
 def pmap(fn, items, jobs=None):
     with cf.ThreadPoolExecutor(max_workers=jobs or NCPU) as ex:
         return list(ex.map(fn, items))
+
+
+# ----------------------------------------------------------------------------- case-table drivers
+
+def run_cases(binary, test, cases, tag, shards=None, timeout=1500, env=None, serial=False):
+    """Runs a Go case-table driver (reads VERIF_IN ndjson cases with a unique "name", appends one
+    observation per case to VERIF_OUT). Sharded over processes. If a process dies (a panic in a
+    goroutine of the code under test kills it), the unfinished cases are re-run one at a time so
+    that the crash is attributed to a case. Returns (observations by name, crashes by name)."""
+    outdir = sub(tag + ".cases")
+    shards = shards or min(NCPU, max(1, len(cases) // 200))
+    parts = [cases[i::shards] for i in range(shards)]
+    crashes = {}
+
+    def run(inp_cases, path_in, path_out, workers=None):
+        write_ndjson(path_in, inp_cases)
+        e = {"VERIF_IN": path_in, "VERIF_OUT": path_out}
+        if workers:
+            e["VERIF_WORKERS"] = str(workers)
+        if env:
+            e.update(env)
+        return run_cmd([binary, "-test.run", "^%s$" % test, "-test.timeout", "30m"], cwd=outdir, env=e, timeout=timeout)
+
+    def work(arg):
+        idx, part = arg
+        po = os.path.join(outdir, "obs.%d.ndjson" % idx)
+        rc, out = run(part, os.path.join(outdir, "in.%d.ndjson" % idx), po, 1 if serial else None)
+        if rc == 0:
+            return
+        done = set(o["name"] for o in read_ndjson(po)) if os.path.exists(po) else set()
+        rest = [c for c in part if c["name"] not in done]
+        if not rest:
+            return
+        if not ("panic:" in out or "fatal error:" in out or rc in (-9,)):
+            raise Inconclusive("driver %s failed (rc=%s):\n%s" % (test, rc, out[-3000:]))
+        # attribute: serial re-run, restarting after every crash
+        rounds = 0
+        while rest and rounds < 200:
+            rounds += 1
+            rc, out = run(rest, os.path.join(outdir, "in.%d.r%d.ndjson" % (idx, rounds)), po, 1)
+            done = set(o["name"] for o in read_ndjson(po)) if os.path.exists(po) else set()
+            if rc == 0:
+                break
+            started = re.findall(r"^SCENARIO (\S+)$", out, re.M)
+            cur = started[-1] if started else None
+            if cur and cur not in done:
+                crashes[cur] = out[-4000:]
+                done.add(cur)
+            n = len(rest)
+            rest = [c for c in rest if c["name"] not in done]
+            if len(rest) == n:
+                raise Inconclusive("driver %s keeps dying without progress (rc=%s):\n%s" % (test, rc, out[-3000:]))
+
+    pmap(work, list(enumerate(parts)), jobs=shards)
+    obs = {}
+    for idx in range(shards):
+        po = os.path.join(outdir, "obs.%d.ndjson" % idx)
+        if os.path.exists(po):
+            for o in read_ndjson(po):
+                obs[o["name"]] = o
+    return obs, crashes
+
+
+def judge_observations(module, cfg, obs_list, tag, timeout=1800):
+    """Writes the observations as one log, lets TLC judge every line (DEVIATION lines), returns
+    (number judged, list of deviating observation names)."""
+    path = os.path.join(sub(tag + ".judge"), "obs.ndjson")
+    write_ndjson(path, obs_list)
+    r = tlc(module, cfg, workers=1, timeout=timeout, env={"VERIF_TRACE": path}, heap="6g")
+    m = re.findall(r'<<"JUDGED", (\d+), "BAD", (\d+)>>', r["out"])
+    if not m:
+        raise Inconclusive("TLC did not judge the observation log (%s/%s):\n%s" % (module, cfg, r["out"][-3000:]))
+    judged, bad = int(m[-1][0]), int(m[-1][1])
+    dev = re.findall(r'<<"DEVIATION", (\d+), "([^"]*)">>', r["out"])
+    names = [d[1] for d in dev]
+    if judged != len(obs_list) or bad != len(set(names)):
+        raise Inconclusive("TLC judged %d of %d lines, bad=%d, deviations listed=%d" % (judged, len(obs_list), bad, len(names)))
+    r["judged"] = judged
+    return r, names
